@@ -48,8 +48,8 @@ def under(path: str, base: str) -> bool:
 	return os.path.abspath(path).startswith(os.path.abspath(base) + os.sep) or os.path.abspath(path) == os.path.abspath(base)
 
 
-def run_history(acc: Acc, r: random.Random, workdir: str, hid: int, n_steps: int) -> None:
-	shape = r.choice(['chain', 'diamond', 'deep', 'deep'])
+def run_history(acc: Acc, r: random.Random, workdir: str, hid: int, n_steps: int, shape: str | None = None, script: list | None = None) -> None:
+	shape = shape or r.choice(['chain', 'diamond', 'deep', 'deep'])
 	h = History(r, shape, workdir, f'h{hid}')
 	case_base = {'kind': 'history', 'seed': hid}
 	# first run creates the caches
@@ -58,9 +58,15 @@ def run_history(acc: Acc, r: random.Random, workdir: str, hid: int, n_steps: int
 		acc.inconc('initial run failed (harness/project)', (p.stdout + p.stderr)[-400:])
 		return
 	stale_possible = False
-	for step in range(n_steps):
+	for step in range(len(script) if script else n_steps):
 		x = r.random()
-		if x < 0.45:
+		if script:
+			# scripted history: the type-deciding module is edited, everything else keeps its text
+			key, variant = script[step]
+			h.edit(key, dict(h.hp.variants[key], **variant))
+			stale_possible = True
+			acc.see('op', 'scripted-edit:' + key)
+		elif x < 0.45:
 			key, variant = h.hp.random_edit(r)
 			h.edit(key, variant)
 			stale_possible = True
@@ -171,6 +177,14 @@ def shard(ctx: Ctx, acc: Acc) -> None:
 		except Exception as e:  # noqa
 			acc.extra.setdefault('harness_errors', []).append(fmt_exc(e))
 			return
+		# scripted type-flow histories, one per project shape: only the module that decides the type changes
+		for j, (shape, key) in enumerate([('chain', 'l'), ('diamond', 'l'), ('deep', 'k')]):
+			if (j + 1) % ctx.nshards == ctx.shard:
+				try:
+					run_history(acc, ctx.rng('scripted', j), workdir, 9000 + j, 0, shape, [(key, {'t': 'str'}), (key, {'t': 'float'}), (key, {'t': 'int', 'extra': 1})])
+				except Exception as e:  # noqa
+					acc.extra.setdefault('harness_errors', []).append(fmt_exc(e))
+					return
 		n = N_HISTORIES[ctx.tier]
 		for i in range(n):
 			if not ctx.mine(i):
@@ -193,6 +207,11 @@ def replay(ctx: Ctx, case: dict, acc: Acc) -> None:
 		if case.get('kind') == 'truncation':
 			truncation_sweep(acc, random.Random(0), workdir, 0, 1, case.get('shape', 'chain'))
 		else:
-			run_history(acc, ctx.rng('history', case.get('seed', 0)), workdir, case.get('seed', 0), 9)
+			if case.get('seed', 0) >= 9000:
+				j = case['seed'] - 9000
+				shape, key = [('chain', 'l'), ('diamond', 'l'), ('deep', 'k')][j]
+				run_history(acc, ctx.rng('scripted', j), workdir, case['seed'], 0, shape, [(key, {'t': 'str'}), (key, {'t': 'float'}), (key, {'t': 'int', 'extra': 1})])
+			else:
+				run_history(acc, ctx.rng('history', case.get('seed', 0)), workdir, case.get('seed', 0), 9)
 	finally:
 		shutil.rmtree(workdir, ignore_errors=True)
